@@ -12,6 +12,7 @@ def dispatch (line : String) : String :=
   | "pack" :: rest => packEngine rest
   | "pick" :: rest => pickEngine rest
   | "fetch" :: rest => fetchEngine rest
+  | "cache" :: rest => cacheEngine rest
   | _ => "bad-op"
 
 partial def loop (hin hout : IO.FS.Stream) : IO Unit := do
